@@ -305,4 +305,135 @@ theorem combineBits1_spec (coeff topBits ol : Nat) (hc : 1 ≤ coeff) (ht : topB
     · rw [if_neg hp]
       exact combineBits2_spec coeff topBits ol hc ht (c :: cs) res ptr shift hr hs hcs.toIn (by omega)
 
+/-! ### the loops of combine_limbs -/
+
+theorem combineLimbs2_cons (coeff ol : Nat) (c : List Nat) (cs : List (List Nat)) (res : List Nat) (skip : Nat) :
+    combineLimbs2 coeff ol (c :: cs) res skip =
+      if skip < res.length then
+        combineLimbs2 coeff ol cs
+          (onWin res skip (res.length - skip) (fun w => (add w (c.take (min (res.length - skip) ol))).1)) (skip + coeff)
+      else res := rfl
+
+theorem combineLimbs1_cons (coeff ol : Nat) (c : List Nat) (cs : List (List Nat)) (res : List Nat) (skip : Nat) :
+    combineLimbs1 coeff ol (c :: cs) res skip =
+      if skip + ol + 1 ≤ res.length then
+        combineLimbs1 coeff ol cs (onWin res skip (ol + 1) (fun w => (add w (c.take ol)).1)) (skip + coeff)
+      else combineLimbs2 coeff ol (c :: cs) res skip := rfl
+
+theorem combineLimbs2_spec (coeff ol : Nat) :
+    ∀ (cs : List (List Nat)) (res : List Nat) (skip : Nat), Limbs res → CoeffsIn ol cs →
+      res.length ≤ skip + ol →
+      (combineLimbs2 coeff ol cs res skip).length = res.length ∧
+      Limbs (combineLimbs2 coeff ol cs res skip) ∧
+      val (combineLimbs2 coeff ol cs res skip) ≡
+        val res + B ^ skip * polyEval (64 * coeff) cs [MOD B ^ res.length]
+  | [], res, skip, hr, _, _ => by
+    have e : combineLimbs2 coeff ol [] res skip = res := rfl
+    rw [e]; exact ⟨rfl, hr, by simp [polyEval]; exact Nat.ModEq.refl _⟩
+  | c :: cs, res, skip, hr, hcs, hwin => by
+    rw [combineLimbs2_cons]
+    have ⟨hcl, hcL⟩ := hcs c (List.mem_cons_self ..)
+    have hcs' : CoeffsIn ol cs := fun d hd => hcs d (List.mem_cons_of_mem _ hd)
+    by_cases hp : skip < res.length
+    · rw [if_pos hp]
+      have hm : skip + (res.length - skip) = res.length := by omega
+      have hmin : min (res.length - skip) ol = res.length - skip := by omega
+      rw [hmin]
+      have hwl : (sl res skip (skip + (res.length - skip))).length = res.length - skip :=
+        (onWin_parts res skip _ (by omega)).2.2
+      have hwL : Limbs (sl res skip (skip + (res.length - skip))) := by
+        unfold sl; exact Limbs_take (Limbs_drop hr _) _
+      have htl : (c.take (res.length - skip)).length = res.length - skip := by simp; omega
+      obtain ⟨r1, r2, r3⟩ := win_end res skip (res.length - skip)
+        (fun w => (add w (c.take (res.length - skip))).1) (val (c.take (res.length - skip))) hr hm
+        (by have := adder_add _ (c.take (res.length - skip)) hwL (Limbs_take hcL _) (by rw [hwl, htl])
+            rw [hwl] at this; exact this)
+      obtain ⟨i1, i2, i3⟩ := combineLimbs2_spec coeff ol cs _ (skip + coeff) r2 hcs' (by rw [r1]; omega)
+      rw [r1] at i1 i3
+      refine ⟨i1, i2, i3.trans ?_⟩
+      have hv : val (onWin res skip (res.length - skip) (fun w => (add w (c.take (res.length - skip))).1)) ≡
+          val res + B ^ skip * val c [MOD B ^ res.length] := by
+        refine r3.trans (Nat.ModEq.add_left _ ?_)
+        rw [val_take_mod _ hcL]
+        have := (Nat.mod_modEq (val c) (B ^ (res.length - skip))).mul_left' (B ^ skip)
+        rw [← pow_add, hm] at this; exact this
+      rw [polyEval, pow_add, ← B_pow_two' coeff, Nat.mul_add, ← Nat.add_assoc, ← Nat.mul_assoc]
+      exact hv.add_right _
+    · rw [if_neg hp]
+      refine ⟨rfl, hr, ?_⟩
+      have hdvd : B ^ res.length ∣ B ^ skip := pow_dvd_pow _ (by omega)
+      have : B ^ skip * polyEval (64 * coeff) (c :: cs) ≡ 0 [MOD B ^ res.length] :=
+        (Nat.modEq_zero_iff_dvd.mpr (Dvd.dvd.mul_right hdvd _))
+      exact ((Nat.ModEq.refl (val res)).add this).symm
+
+theorem combineLimbs1_spec (coeff ol : Nat) (hc : 1 ≤ coeff) :
+    ∀ (cs : List (List Nat)) (res : List Nat) (skip : Nat), Limbs res → CoeffsSmall ol cs →
+      val res < 2 ^ (64 * skip + 0 + 64 * ol) →
+      (combineLimbs1 coeff ol cs res skip).length = res.length ∧
+      Limbs (combineLimbs1 coeff ol cs res skip) ∧
+      val (combineLimbs1 coeff ol cs res skip) ≡
+        val res + B ^ skip * polyEval (64 * coeff) cs [MOD B ^ res.length]
+  | [], res, skip, hr, _, _ => by
+    have e : combineLimbs1 coeff ol [] res skip = res := rfl
+    rw [e]; exact ⟨rfl, hr, by simp [polyEval]; exact Nat.ModEq.refl _⟩
+  | c :: cs, res, skip, hr, hcs, hinv => by
+    rw [combineLimbs1_cons]
+    have ⟨hcl, hcL, hcv⟩ := hcs c (List.mem_cons_self ..)
+    have hcs' : CoeffsSmall ol cs := fun d hd => hcs d (List.mem_cons_of_mem _ hd)
+    by_cases hp : skip + ol + 1 ≤ res.length
+    · rw [if_pos hp]
+      have hwl : (sl res skip (skip + (ol + 1))).length = ol + 1 := (onWin_parts res skip _ (by omega)).2.2
+      have hwL : Limbs (sl res skip (skip + (ol + 1))) := by
+        unfold sl; exact Limbs_take (Limbs_drop hr _) _
+      have hcv' : val c < 2 ^ (64 * ol) := by rw [← B_pow_two']; exact hcv
+      obtain ⟨ab1, ab2⟩ := acc_bound (val res) (val c) skip 0 ol (64 * coeff) (by norm_num) (by omega) hinv hcv'
+      have htv : val (c.take ol) = val c := by
+        rw [val_take_mod _ hcL]; exact Nat.mod_eq_of_lt hcv
+      have e0 : 2 ^ (64 * skip + 0) = B ^ skip := by rw [Nat.add_zero, B_pow_two']
+      rw [e0] at ab1 ab2
+      obtain ⟨r1, r2, r3⟩ := win_exact res skip (ol + 1) (fun w => (add w (c.take ol)).1) (val (c.take ol)) hr
+        (by omega)
+        (by have := adder_add _ (c.take ol) hwL (Limbs_take hcL _) (by rw [hwl]; simp)
+            rw [hwl] at this; exact this)
+        (by rw [htv]; exact ab1)
+      rw [htv] at r3
+      obtain ⟨i1, i2, i3⟩ := combineLimbs1_spec coeff ol hc cs _ (skip + coeff) r2 hcs'
+        (by rw [r3]; refine lt_of_lt_of_eq ab2 ?_; congr 1; ring)
+      rw [r1] at i1 i3
+      refine ⟨i1, i2, i3.trans ?_⟩
+      rw [r3, polyEval, pow_add, ← B_pow_two' coeff, Nat.mul_add, ← Nat.add_assoc, ← Nat.mul_assoc]
+    · rw [if_neg hp]
+      exact combineLimbs2_spec coeff ol (c :: cs) res skip hr hcs.toIn (by omega)
+
+/-- mpir_fft_combine_bits into a zeroed destination: Σ c_j·2^(j·bits) truncated to the destination length,
+    for coefficients whose value fits ol limbs -/
+theorem combine_bits_spec (res : List Nat) (cs : List (List Nat)) (bits ol : Nat) (hr : Limbs res)
+    (hz : val res = 0) (hb : 1 ≤ bits) (hcs : CoeffsSmall ol cs) :
+    (combine_bits res cs bits ol).length = res.length ∧ Limbs (combine_bits res cs bits ol) ∧
+    val (combine_bits res cs bits ol) = polyEval bits cs % B ^ res.length := by
+  have hdm := Nat.div_add_mod bits 64
+  have hinv : val res < 2 ^ (64 * 0 + 0 + 64 * ol) := by rw [hz]; exact Nat.two_pow_pos _
+  have fin : ∀ R : List Nat, R.length = res.length → Limbs R →
+      val R ≡ val res + 1 * polyEval bits cs [MOD B ^ res.length] → val R = polyEval bits cs % B ^ res.length := by
+    intro R hl hL hm
+    rw [hz, Nat.zero_add, Nat.one_mul] at hm
+    have := val_lt R hL; rw [hl] at this
+    rw [← Nat.mod_eq_of_lt this]; exact hm
+  unfold combine_bits
+  by_cases ht : bits % 64 = 0
+  · simp only [ht, ↓reduceIte]
+    have hbits : bits = 64 * (bits / 64) := by omega
+    unfold combine_limbs
+    obtain ⟨h1, h2, h3⟩ := combineLimbs1_spec (bits / 64) ol (by omega) cs res 0 hr hcs hinv
+    rw [← hbits, pow_zero] at h3
+    exact ⟨h1, h2, fin _ h1 h2 h3⟩
+  · simp only [ht, ↓reduceIte]
+    have hlt : bits % 64 < 64 := Nat.mod_lt _ (by norm_num)
+    have hbits : 64 * (bits / 64 + 1 - 1) + bits % 64 = bits := by omega
+    obtain ⟨h1, h2, h3⟩ := combineBits1_spec (bits / 64 + 1) (bits % 64) ol (by omega) hlt (by omega) cs res 0 0 hr
+      (by norm_num) hcs hinv
+    rw [hbits] at h3
+    simp only [Nat.mul_zero, Nat.add_zero, pow_zero] at h3
+    exact ⟨h1, h2, fin _ h1 h2 h3⟩
+
 end Mpir.Fft
